@@ -2,7 +2,7 @@
 (* step st kind inputs = (st', expected observations).                                   *)
 (* Kinds flagged by is_monitor have inputs that are *observed* on the implementation and  *)
 (* a constant expected output: a mismatch there is a property violation on the real code. *)
-From VD Require Import Base.Words Model.Layout Model.Queue Extract.QueueIO Extract.QueueMon Extract.OwningIO Extract.MmioIO Model.PciBus Extract.PciBusIO Model.Blk Extract.BlkIO Model.Console Extract.ConsoleIO.
+From VD Require Import Base.Words Model.Layout Model.Queue Extract.QueueIO Extract.QueueMon Extract.OwningIO Extract.MmioIO Model.PciBus Extract.PciBusIO Model.Blk Extract.BlkIO Model.Console Extract.ConsoleIO Extract.ConfigIO.
 
 Inductive mstate :=
 | MNone
@@ -18,7 +18,7 @@ Definition bad : list N := [77777].
 Definition is_diag (k : N) : bool := (k =? 140).
 
 Definition is_monitor (k : N) : bool :=
-  (k =? 1) || (k =? 2) || (k =? 612) || ((150 <=? k) && (k <? 170)) || (k =? 1950) || (k =? 1951) || mmio_is_monitor k || pci_is_monitor k || blk_is_monitor k || console_is_monitor k.
+  (k =? 1) || (k =? 2) || (k =? 612) || ((150 <=? k) && (k <? 170)) || (k =? 1950) || (k =? 1951) || mmio_is_monitor k || pci_is_monitor k || blk_is_monitor k || console_is_monitor k || config_is_monitor k.
 
 Definition dir_reads (d : N) : bool := (d =? 0) || (d =? 2).
 Definition dir_writes (d : N) : bool := (d =? 1) || (d =? 2).
@@ -49,6 +49,7 @@ Definition step (st : mstate) (k : N) (ins : list N) : mstate * list N :=
     | _ => (st, bad) end
   else if (1000 <=? k) && (k <? 1100) then (st, mmio_step k ins)
   else if (1200 <=? k) && (k <? 1300) then (st, pci_step k ins)
+  else if (1300 <=? k) && (k <? 1400) then (st, config_step k ins)
   (* ---- C14: block driver (kinds 1400..1499) ---- *)
   else if (1400 <=? k) && (k <? 1500) then
     (if blk_is_monitor k then (st, blk_monitor k ins) else
